@@ -367,7 +367,7 @@ func checkResponseGo(c *Ctx, gen *packages.Package) {
 		for f, w := range map[string]string{"IsSuccess": "isSuccess", "Code": "code"} {
 			got := ""
 			if v := goan.Field(cl, f); v != nil {
-				got = goan.ExprString(v)
+				got = goan.ExprString(goan.ResolveLocal(info, mr.Body, v))
 			}
 			c.Check(got == w, rule, "generator.codeGenOpBuilder.MakeResponse › GenResponse."+f+" = "+w, c.posOf(gen, cl.Pos()), "copied from the argument", fmt.Sprintf("GenResponse.%s is %q", f, got))
 		}
